@@ -54,7 +54,11 @@ def main():
                 continue
             t0 = time.time()
             env = dict(os.environ, VERIF_REPO=WT, VERIF_SEED=seed)
-            r = subprocess.run([os.path.join(HERE, "check.py"), pid, "--tier", tier], capture_output=True, text=True, env=env, cwd=HERE)
+            proc = subprocess.Popen([os.path.join(HERE, "check.py"), pid, "--tier", tier], stdout=subprocess.PIPE, stderr=subprocess.PIPE, text=True, env=env, cwd=HERE)
+            out, err = proc.communicate()
+            r = subprocess.CompletedProcess(proc.args, proc.returncode, out, err)
+            # a run against another tree writes its evidence and replay files under .work/alt-<pid>
+            sh("rm -rf %s" % os.path.join(HERE, ".work", "alt-%d" % proc.pid))
             viol = [l for l in r.stdout.splitlines() if l.startswith("VIOLATION")]
             fails = [l[:300] for l in r.stdout.splitlines() if l.startswith("FAIL")][:3]
             results[name] = {"property": pid, "applied": True, "exit": r.returncode, "caught": r.returncode == 1 and bool(viol),
@@ -63,12 +67,8 @@ def main():
             print(name, pid, "CAUGHT" if results[name]["caught"] else "MISSED (exit %d)" % r.returncode, "%.0fs" % (time.time() - t0))
             if r.returncode == 2:
                 print(r.stdout[-1500:])
-            # remove replay files written for the mutated tree
-            sh("rm -rf %s" % os.path.join(HERE, "replays", pid, "found"))
     finally:
         sh("git -C /repo worktree remove --force %s" % WT)
-        # the evidence files were rewritten by runs against mutated trees: restore them from git
-        sh("git -C %s checkout -- evidence" % HERE)
     # merge under a lock: several audits (of different properties) may run side by side
     import fcntl
 
